@@ -1124,3 +1124,7 @@ impl<'source> CodeGenerator<'source> {
         (self.instructions, self.blocks)
     }
 }
+
+#[cfg(kani)]
+#[path = "/verif/kani/compiler_codegen.rs"]
+mod verif_kani;
